@@ -51,8 +51,27 @@ impl ScriptHasher {
     }
 }
 
+/// Pending once, then ready (wakes itself): an asynchronous hasher whose latency depends on its input
+pub struct YieldNow(bool);
+impl std::future::Future for YieldNow {
+    type Output = ();
+    fn poll(mut self: std::pin::Pin<&mut Self>, cx: &mut std::task::Context<'_>) -> std::task::Poll<()> {
+        if self.0 {
+            std::task::Poll::Ready(())
+        } else {
+            self.0 = true;
+            cx.waker().wake_by_ref();
+            std::task::Poll::Pending
+        }
+    }
+}
+
 impl<const S: usize> Multihasher<S> for ScriptHasher {
     async fn hash(&self, code: u64, input: &[u8]) -> Result<Multihash<S>, MultihasherError> {
+        // input-dependent latency: 0..3 extra polls
+        for _ in 0..(input.first().copied().unwrap_or(0) % 4) {
+            YieldNow(false).await;
+        }
         self.log.lock().unwrap().push(self.id);
         match self.answer(code, input) {
             Kind::Unknown => Err(MultihasherError::UnknownMultihashCode),
